@@ -221,6 +221,37 @@ CLAIMED = {
              "configurations with own RSA keys).",
         design="§4 C07",
     ),
+    "C01": dict(
+        text="Machine-checked (Lean 4): for every file content, key list, all-keys mode, detector answer, residual key order, Guardrails outcome, "
+             "file kind and read-buffer size >= 1, BeaconConfig.from_file/from_bytes/from_path returns exactly the least candidate in (decoded view "
+             "before file, key priority, offset) order (extract_first, extract_eq_spec); its block is xor(view[i:i+4096], key), its key and "
+             "xorencoded flag are as found, and its settings are the C02 decoding of that block (extract_settings, extract_planted). With no "
+             "candidate the result is the Guardrails outcome, else ValueError, and no other exception occurs (extract_none, "
+             "extract_only_valueError). The answer does not depend on buffer size, entry point or initial file position; in all-keys mode the chosen "
+             "key is least in the residual order (allkeys_any_order). Built on C15.needle_exact, C09's refinement and C02.parse_serialize.",
+        note="The XorEncoded detector answer (C09), the residual key order and the Guardrails fallback (C17) are parameters of the theorems; the one "
+             "detector hypothesis (c + 8 <= file size) is proved for the executable detector used in the runs, which is proved to answer as "
+             "C09.fromFileFull. Behaviour of iter_beacon_config_blocks after its first yield, the exact residual key order and CPython's Counter/sort "
+             "are correspondence-only. PE artifacts are C18. Constants come from tools/gen/extract.py. Correspondence: an independent payload builder "
+             "whose ground truth is a brute-force least-candidate search, all 256 keys, offsets around k*B for B in {7..8192}, every container, "
+             "filler and key-list variant.",
+        design="§4 C01",
+    ),
+    "C11": dict(
+        text="Machine-checked: for every well-formed derivation of the generated grammar with lexable tokens, as_dict of its tree equals the grouped "
+             "specification read off the tree by structural recursion (paths from block keywords and variants, one entry per statement in source "
+             "order, list properties decoded to bytes, first raising statement decides the exception) - asDict_eq_spec, via the invariant 'after a "
+             "block's statements the stack is again the path of the enclosing blocks' and C10.print_eq_source. The cache returns the dictionary of "
+             "the current tree for every modify/access history under a collision-free tree hash (dict_tracks_modification; a counter-example "
+             "documents the assumption). Builder call sequences whose tree passes the verified derivation checker yield derivation trees printed as "
+             "their own sentence, with byte arguments round-tripping (builder_eq_parsed_partial, builder_bytes_roundtrip).",
+        note="Grammar facts (form shapes, label/arity lookup, list_props, builder attribute tables) are re-proved by decide on tables regenerated "
+             "from the source on every run (tools/gen/grammar.py, profile_api.py). Not proved: that the builder's text parses back to the same tree "
+             "(builder_eq_parsed_full needs C10's open unique readability) - covered by correspondence against real Lark. The Reconstructor, the LALR "
+             "parser and Python's str/list/dict semantics are modelled and compared on ~10k (quick) / ~110k (thorough) cases incl. an oracle "
+             "written independently of the library. Known finding C11-comment-dns-resolver is modelled faithfully.",
+        design="§4 C11",
+    ),
 }
 
 REASON_PENDING = "not claimed yet: model/theorems/correspondence for this property are not built in this revision (see DESIGN.md §7 build order)"
